@@ -136,10 +136,12 @@ def inject(ws, pid, cfg, tier):
         with open(lib, "a") as f:
             if crate == "scpi":
                 f.write('\n#[cfg(kani)] extern crate self as scpi;')
-                hook = os.path.join(ws, "scpi/src/parser/response/mod.rs")
-                if os.path.exists(hook):
-                    with open(hook, "a") as hf:
-                        hf.write('\n#[cfg(kani)] #[path = "%s/hook_response.rs"] pub mod verif_hook;\n' % KDIR)
+                for rel, hookfile in (("scpi/src/parser/response/mod.rs", "hook_response.rs"),
+                                      ("scpi/src/parser/tokenizer/mod.rs", "hook_tokenizer.rs")):
+                    hook = os.path.join(ws, rel)
+                    if os.path.exists(hook):
+                        with open(hook, "a") as hf:
+                            hf.write('\n#[cfg(kani)] #[path = "%s/%s"] pub mod verif_hook;\n' % (KDIR, hookfile))
             f.write('\n#[cfg(kani)] #[path = "%s"] pub mod verif_contracts;\n' % modfile)
     inj_path = os.path.join(KDIR, "inject.json")
     wanted = set()
